@@ -5,10 +5,13 @@
  *   mc_peek <request.json|->  |  mc_peek --serve <errfile>      (fork server, one request per line)
  *
  * request {"scenario": {...}, "schedule": [step..], "branches": [[step..]..] | "pairs"?, "dump": "all"|"last"|"none"?, "hb": bool?}
- *   step = aid | [aid, times_considered] | {"pick": k, "tc": j} (the (k mod n)-th enabled actor by increasing aid).
- *   branches "pairs": one branch [a, b] per ordered pair of distinct enabled actors (and alternative of each), listed in a
+ *   step = aid | [aid, times_considered] | {"pick": k, "tc": j, "lazy": bool} (the (k mod n)-th enabled actor by increasing aid;
+ *   lazy: among the enabled actors that are not about to execute a WAIT / test, when there are some).
+ *   branches "pairs": two branches [a, b], [b, a] per pair of distinct enabled actors (and alternative of each; same-family pairs
+ *   first, pairs of pending simcalls already taken at an earlier step skipped), listed in a
  *   {"k":"branches","at":step,"first":index of the first one,"list":[..]} line; at most "maxbranches" (60) in total.
- *   "every": true takes the branches at every state of the schedule, not only after its last step.  The schedule is replayed with our own copy of the loop of RecordTrace::replay
+ *   "every": true takes the branches at every state of the schedule, not only after its last step;
+ *   "related_only_before_end": true keeps, before the last state, only the pairs of one family (mutex+condvar, semaphore, ...).  The schedule is replayed with our own copy of the loop of RecordTrace::replay
  *   (src/mc/mc_record.cpp): run every actor until it blocks in a visible simcall, then repeatedly handle the simcall of the
  *   chosen actor and run the actors again.  MC_record_path() is set before the actors exist, so the s4u layer splits its
  *   blocking calls into the simcalls of the model checker, exactly as with --cfg=model-check/replay.
@@ -57,6 +60,7 @@
 
 #include "forkserver.hpp"
 
+#include <set>
 #include <sys/wait.h>
 
 namespace mc  = simgrid::mc;
@@ -539,6 +543,18 @@ static bool do_step(int step, const json& s)
       out(j);
       return false;
     }
+    if (s.value("lazy", false) && en.size() > 1) {
+      // lazy step: requests first, then MUTEX_WAIT (needed to make progress), and only when nothing else can move the other
+      // completions (CONDVAR_WAIT, SEM_WAIT, BARRIER_WAIT, comm wait / test): several completions pile up and become
+      // enabled in the same state
+      std::vector<ActorImpl*> tier[3];
+      for (auto* x : en) {
+        std::string d = x->simcall_.observer_->to_string();
+        bool completion = d.find("WAIT") != std::string::npos || d.find("Wait") != std::string::npos || d.find("Test") != std::string::npos;
+        tier[not completion ? 0 : d.rfind("MUTEX_WAIT", 0) == 0 ? 1 : 2].push_back(x);
+      }
+      en = not tier[0].empty() ? tier[0] : not tier[1].empty() ? tier[1] : tier[2];
+    }
     ActorImpl* a = en[s.value("pick", 0) % en.size()];
     aid          = a->get_pid();
     tc           = s.value("tc", 0) % a->simcall_.observer_->get_max_consider();
@@ -748,19 +764,52 @@ static int run_case(const std::string& text)
     };
     size_t maxbr    = req.value("maxbranches", 60);
     size_t total    = 0;
+    const bool related_first_only = req.value("related_only_before_end", false);
+    bool last_state               = false;
     auto branch_out = [&](int at) {
       json branches = req["branches"];
       if (branches.is_string() && branches.get<std::string>() == "pairs") {
         // every ordered pair (a, b) of distinct enabled actors, every alternative of each: a then b
+        // Both orders of a pair are always taken together.  Under the cap ("maxbranches") pairs whose pending transitions are of
+        // the same family (mutex+condvar, semaphore, barrier, comm) go first, and a pair of pending simcalls that was already
+        // branched on in an earlier state of this run (same two actors, same descriptions) is not taken again.
         branches = json::array();
         auto en  = peek::enabled_actors();
-        for (auto* a : en)
-          for (auto* b : en)
-            if (a != b)
+        auto family = [](ActorImpl* x) {
+          std::string s = x->simcall_.observer_->to_string();
+          if (s.rfind("MUTEX", 0) == 0 || s.rfind("CONDVAR", 0) == 0)
+            return 1;
+          if (s.rfind("SEM", 0) == 0)
+            return 2;
+          if (s.rfind("BARRIER", 0) == 0)
+            return 3;
+          if (s.rfind("Comm", 0) == 0 || s.rfind("Iprobe", 0) == 0 || s.rfind("TestAny", 0) == 0 || s.rfind("WaitAny", 0) == 0)
+            return 4;
+          return 0;
+        };
+        static std::set<std::string> seen_pairs;
+        for (int pass = 0; pass < (related_first_only && not last_state ? 1 : 2); pass++)
+          for (size_t i = 0; i < en.size(); i++)
+            for (size_t k = i + 1; k < en.size(); k++) {
+              ActorImpl* a = en[i];
+              ActorImpl* b = en[k];
+              bool related = family(a) != 0 && family(a) == family(b);
+              if (related != (pass == 0))
+                continue;
+              std::string key = std::to_string(a->get_pid()) + ":" + a->simcall_.observer_->to_string() + "|" +
+                                std::to_string(b->get_pid()) + ":" + b->simcall_.observer_->to_string();
+              if (seen_pairs.count(key) > 0)
+                continue;
+              size_t need = 2 * a->simcall_.observer_->get_max_consider() * b->simcall_.observer_->get_max_consider();
+              if (total + branches.size() + need > maxbr)
+                continue;
+              seen_pairs.insert(key);
               for (int ta = 0; ta < a->simcall_.observer_->get_max_consider(); ta++)
-                for (int tb = 0; tb < b->simcall_.observer_->get_max_consider(); tb++)
-                  if (total + branches.size() < maxbr)
-                    branches.push_back(json::array({json::array({a->get_pid(), ta}), json::array({b->get_pid(), tb})}));
+                for (int tb = 0; tb < b->simcall_.observer_->get_max_consider(); tb++) {
+                  branches.push_back(json::array({json::array({a->get_pid(), ta}), json::array({b->get_pid(), tb})}));
+                  branches.push_back(json::array({json::array({b->get_pid(), tb}), json::array({a->get_pid(), ta})}));
+                }
+            }
         if (branches.empty())
           return;
       }
@@ -826,6 +875,7 @@ static int run_case(const std::string& text)
     }
     if (ok) {
       peek::dump_state(step, true);
+      last_state = true;
       branch_out(step);
     }
   }
